@@ -163,4 +163,27 @@ theorem hist_run (rg : RG) (sched : List RTid) : (rrun rg sched).hist = rg.hist 
       simp only [rstep]
       split <;> rfl
 
+theorem ne_nil_iff_mem {l : List Nat} : l ≠ [] ↔ ∃ a, a ∈ l :=
+  ⟨List.exists_mem_of_ne_nil l, fun ⟨_, ha⟩ => List.ne_nil_of_mem ha⟩
+
+/-- what a returned iterating query has established -/
+theorem ret_iter_spec {S : Nat → State} {len : Nat} {q ans acc vis} (h : RdOk S len (.ret q ans acc vis))
+    (hq : isIter q = true) :
+    (∀ p ∈ vis, p.2 ≤ len) ∧ (∀ k, k ∈ acc ↔ ∃ n, (k, n) ∈ vis ∧ ∃ a, a ∈ membersOf (S n) k) ∧
+      ans = iterProj q acc := by
+  rcases h with ⟨_, hok, ha⟩ | ⟨hi, _⟩
+  · refine ⟨hok.1, fun k => ?_, ha⟩
+    rw [hok.2 k]
+    constructor
+    · rintro ⟨n, hn, hm⟩; exact ⟨n, hn, ne_nil_iff_mem.mp hm⟩
+    · rintro ⟨n, hn, hm⟩; exact ⟨n, hn, ne_nil_iff_mem.mpr hm⟩
+  · rw [hq] at hi; cases hi
+
+/-- what a returned one-region query has established -/
+theorem ret_single_spec {S : Nat → State} {len : Nat} {q ans acc vis} (h : RdOk S len (.ret q ans acc vis))
+    (hq : isIter q = false) : ∃ n, n ≤ len ∧ vis = [(qKey q, n)] ∧ ans = singleAns (S n) q := by
+  rcases h with ⟨hi, _⟩ | ⟨_, h⟩
+  · rw [hq] at hi; cases hi
+  · exact h
+
 end Pg.Conc
